@@ -139,4 +139,38 @@ def isLeaf : Included → Bool
   | .dir _ => false
   | _ => true
 
+/-! ### Pattern cleaning: docker/ignore.go `newValidatedPatternMatcher` followed
+by patternmatcher.go `New` (for patterns without `[`, `]`: the syntax check and
+the regexp compilation cannot fail on them) -/
+
+inductive CleanErr | backslash | empty | negatedEmpty | root | illegalExclusion | dropped
+  deriving DecidableEq, Repr
+
+/-- `unicode.IsSpace` on the Latin-1 range (what `strings.TrimSpace` trims). -/
+def isSpace (c : Char) : Bool :=
+  c = ' ' ∨ c = '\t' ∨ c = '\n' ∨ c.toNat = 11 ∨ c.toNat = 12 ∨ c = '\r' ∨ c.toNat = 0x85 ∨ c.toNat = 0xA0
+
+def trimSpace (s : Str) : Str := ((s.dropWhile isSpace).reverse.dropWhile isSpace).reverse
+
+/-- One pattern through both cleaning stages: `(exclusion, cleanedPattern)`. -/
+def cleanPattern (p0 : Str) : Except CleanErr (Bool × Str) :=
+  open Mutagen.Model.IgnoreMutagen in
+  if p0.contains '\\' then .error .backslash else
+  let p := trimSpace p0
+  if p = [] then .error .empty else
+  let negated := p.head? = some '!'
+  let q := if negated then trimSpace p.tail else p
+  if q = [] then .error .negatedEmpty else
+  let q := pathClean q
+  if q = ['/'] then .error .root else
+  let q := if q.length > 1 ∧ q.head? = some '/' then q.tail else q
+  let r := if negated then '!' :: q else q
+  -- patternmatcher.New
+  let r := trimSpace r
+  if r = [] then .error .dropped else
+  let r := pathClean r
+  match r with
+  | '!' :: rest => if rest = [] then .error .illegalExclusion else .ok (true, rest)
+  | _ => .ok (false, r)
+
 end Mutagen.Model.IgnoreDocker
